@@ -19,9 +19,11 @@ CLAIM = dict(
          "is never exhausted), of the PEP 3333 latin-1 dance (lossless on every Unicode scalar-value string), of urllib's quote as "
          "used by iri_to_uri / get_current_url (pure ASCII output; idempotent because '%' is in each of the five safe sets "
          "regenerated from the source), and of _make_unquote_part / uri_to_iri per component (reserved escapes of each component and "
-         "invalid bytes stay quoted; the fixpoint claim is refuted by '%4%41' and proved, as a _partial theorem, on the URIs that "
-         "iri_to_uri produces from text without a percent sign; on those, iri_to_uri then uri_to_iri is the identity up to the "
-         "component's reserved characters). Safe sets, protected tables and the statement skeletons are "
+         "invalid bytes stay quoted; the fixpoint claim is refuted by '%4%41' and proved, as a _partial theorem, for every text without "
+         "a stray percent sign, via a decoder re-synchronisation argument; under the same guard uri_to_iri(iri_to_uri(s)) is "
+         "uri_to_iri(s) up to the component's reserved characters), and of get_current_url (the URI re-splits into the scheme, host, "
+         "quoted root/path and query it was built from; its path decodes to the given root and path when they hold no percent sign, "
+         "refuted otherwise; the host_only / root_only / strip_querystring conditions of wsgi.get_current_url are regenerated). Safe sets, protected tables and the statement skeletons are "
          "regenerated from the source on every run; the models are compared with werkzeug and urllib on ~110k cases per quick run "
          "and the EnvironBuilder -> Request round trip is exercised end to end (values given through the constructor or assigned to "
          "path / script_root / base_url afterwards; hosts ending in digits with explicit default ports; SERVER_NAME fallback).",
@@ -192,6 +194,48 @@ def _default_port_rules(fn: ast.FunctionDef):
     return rules
 
 
+def _flag_expr(node: ast.expr, flags: tuple[str, ...]) -> str:
+    """T2: a condition over boolean parameters -> Gallina"""
+    if isinstance(node, ast.Name) and node.id in flags:
+        return node.id
+    if isinstance(node, ast.UnaryOp) and isinstance(node.op, ast.Not):
+        return f"negb {_flag_expr(node.operand, flags)}"
+    if isinstance(node, ast.BoolOp):
+        op = " || " if isinstance(node.op, ast.Or) else " && "
+        return "(" + op.join(_flag_expr(v, flags) for v in node.values) + ")"
+    raise px.Unsupported(f"wsgi.get_current_url: condition not recognised: {ast.unparse(node)}")
+
+
+def _wsgi_parts(fn: ast.FunctionDef) -> dict[str, str]:
+    """T2 for wsgi.get_current_url: under which condition each optional part is handed to the URL builder"""
+    flags = ("root_only", "strip_querystring", "host_only")
+    body = _body(fn)
+    if (len(body) != 3 or ast.unparse(body[0]) != "parts = {'scheme': environ['wsgi.url_scheme'], 'host': get_host(environ, trusted_hosts)}"
+            or ast.unparse(body[2]) != "return _sansio_utils.get_current_url(**parts)" or not isinstance(body[1], ast.If)):
+        raise px.Unsupported("wsgi.get_current_url: statement skeleton changed")
+    expected = {"root_path": "_wsgi_decoding_dance(environ.get('SCRIPT_NAME', ''))",
+                "path": "_wsgi_decoding_dance(environ.get('PATH_INFO', ''))",
+                "query_string": "environ.get('QUERY_STRING', '').encode('latin1')"}
+    conds: dict[str, str] = {}
+
+    def walk(stmts, ctx):
+        for st in stmts:
+            if isinstance(st, ast.If) and not st.orelse:
+                walk(st.body, ctx + [_flag_expr(st.test, flags)])
+            elif (isinstance(st, ast.Assign) and len(st.targets) == 1 and isinstance(st.targets[0], ast.Subscript)
+                  and ast.unparse(st.targets[0].value) == "parts" and isinstance(st.targets[0].slice, ast.Constant)):
+                key = st.targets[0].slice.value
+                if key not in expected or ast.unparse(st.value) != expected[key] or key in conds:
+                    raise px.Unsupported(f"wsgi.get_current_url: parts[{key!r}] = {ast.unparse(st.value)} not recognised")
+                conds[key] = " && ".join(ctx) if ctx else "true"
+            else:
+                raise px.Unsupported(f"wsgi.get_current_url: statement not recognised: {ast.unparse(st)}")
+    walk([body[1]], [])
+    if sorted(conds) != sorted(expected):
+        raise px.Unsupported(f"wsgi.get_current_url: parts set are {sorted(conds)}")
+    return conds
+
+
 def _name(n, ident):
     return isinstance(n, ast.Name) and n.id == ident
 
@@ -294,6 +338,9 @@ def gen() -> None:
         raise px.Unsupported(f"get_host: {len(port_rules)} default-port branches, the skeleton pin was written for 2")
     _pin(gh, GET_HOST, "sansio.utils.get_host", ["scheme", "host_header", "server", "trusted_hosts"])
 
+    # ---- wsgi.get_current_url: which parts reach sansio.utils.get_current_url
+    wparts = _wsgi_parts(px.find_def(px.load("wsgi.py"), "get_current_url"))
+
     # ---- DispatcherMiddleware.__call__
     cls = px.find_class(disp, "DispatcherMiddleware")
     _pin(px.find_def(cls, "__call__"), DISPATCH_CALL, "DispatcherMiddleware.__call__", ["self", "environ", "start_response"])
@@ -320,6 +367,9 @@ def gen() -> None:
     t += "(* sansio.utils.get_host: (schemes, suffix, k) of each branch `scheme in {..} and host.endswith(suffix): host = host[:-k]` *)\n"
     t += "Definition default_port_rules : list (list (list N) * list N * nat) :=\n  [" + ";\n   ".join(
         "([" + "; ".join(_codes(x) for x in schemes) + f"], {_codes(suf)}, {k}%nat)" for schemes, suf, k in port_rules) + "].\n"
+    t += "(* wsgi.get_current_url: the condition under which root_path / path / query_string are passed on *)\n"
+    for key, nm in (("root_path", "root"), ("path", "path"), ("query_string", "query")):
+        t += f"Definition wsgi_url_takes_{nm} (root_only strip_querystring host_only : bool) : bool :=\n  {wparts[key]}.\n"
     t += "(* DispatcherMiddleware.__call__: the separator of the `in` test, of rsplit and of the rebuilt path_info *)\n"
     t += "Definition dispatch_sep : N := 47.\n"
     px.write_if_changed(os.path.join(COQ, "C15", "Gen.v"), t)
@@ -522,18 +572,26 @@ def run(chk: Check) -> None:
     # iri_to_uri is undone by uri_to_iri up to normalisation (C15_i2u_u2i_partial, transcribed): text without a percent
     # sign comes back unchanged except that characters which are both quoted and reserved for the component stay escapes
     always_safe = set("ABCDEFGHIJKLMNOPQRSTUVWXYZabcdefghijklmnopqrstuvwxyz0123456789_.-~")
-    for _ in range(4000 * K):
+    for _ in range(6000 * K):
         c = rng.choice(COMPS)
-        s = (_text(rng, 0, 6, extra=("/", "?", "#")) if rng.random() < 0.6 else _rand_text(rng)).replace("%", "")
+        s = _text(rng, 0, 6, extra=("/", "?", "#")) if rng.random() < 0.7 else _rand_text(rng)
+        if "\ud800" in s:
+            continue
+        # unquote_to_bytes and the stray-percent guard of the theorems, model against interpreter
+        add(f"tbytes {cps(s)}", "ok " + hexs(up.unquote_to_bytes(s)) + (" stray" if _stray_percent(s) else " wf"))
+        if _stray_percent(s):
+            s = s.replace("%", "")
         reserved = set(map(chr, range(0x21))) | {"%", "\x7f"} | set(keep_extra[c])
-        want = "".join(f"%{ord(ch):02X}" if (ch in reserved and ch not in always_safe and ch not in i2u_safe[c]) else ch for ch in s)
+        # with escapes in the text: uri_to_iri(iri_to_uri(s)) is uri_to_iri(s) with the quoted-and-reserved characters escaped
+        base = _call(unq[c], s)
+        want = "".join(f"%{ord(ch):02X}" if (ch in reserved and ch not in always_safe and ch not in i2u_safe[c]) else ch for ch in base)
         got = _call(unq[c], up.quote(s, safe=i2u_safe[c]))
         if got != want:
             chk.fail("i2u-u2i-not-normal", f"_unquote_{c}(quote({s!r})) = {got!r}, expected {want!r}", {"op": "i2u-u2i", "component": c, "value": s})
         elif _call(unq[c], got) != got:
             chk.fail("u2i-not-fixpoint", f"_unquote_{c} is not a fixpoint on {got!r}", {"op": "u2i", "component": c, "value": got})
         chk.case(("i2u-u2i", c, s), nontrivial=len(s) > 0)
-    chk.count("i2u-then-u2i normal form", 4000 * K)
+    chk.count("i2u-then-u2i normal form (with escapes)", 6000 * K)
     for c in COMPS:
         for ch in [chr(x) for x in range(0x21)] + ["%", "\x7f"] + list(keep_extra[c]):
             for esc in (f"%{ord(ch):02X}", f"%{ord(ch):02x}"):
@@ -630,6 +688,43 @@ def run(chk: Check) -> None:
         post.append((idx, "cururi", (st, got, (scheme, host, root, path, qs))))
         chk.case(("cururi", scheme, host, root, path, qs), nontrivial=True)
     chk.count("get_current_url", 2500 * K)
+
+    # ------------------------------------------------ wsgi.get_current_url (flags, get_host, the decoding dance) and re-splitting
+    from werkzeug.wsgi import get_current_url as wsgi_gcu
+    gsafe = EXTRACTED.get("gcu_safe") or ["!$&'()*+,/:;=@%", "!$&'()*+,/:;=@%", "!$&'()*+,/:;=?@%"]
+    for _ in range(2500 * K):
+        scheme = rng.choice(["http", "https", "ws", "wss"])
+        hh = rng.choice([None, "example.com", "10.0.0.80:80", "web-0:443", "xn--bcher-kva.example:8080", "[::1]:80", "localhost"])
+        server = (rng.choice(["srv", "10.20.30.80", "2001:db8::8"]), rng.choice([80, 443, 8080, None]))
+        script_t = rng.choice(["", "/röot", "/a b/", "/r//", "/%41", "/☃"]) if rng.random() < 0.7 else "/" + _text(rng, 0, 3)
+        path_t = rng.choice(["", "/", "//x", "/é"]) if rng.random() < 0.3 else "/" + _text(rng, 0, 4, extra=("/",))
+        if "\ud800" in script_t + path_t:
+            continue
+        script, path_info = _wsgi_encoding_dance(script_t), _wsgi_encoding_dance(path_t)
+        if rng.random() < 0.1:
+            path_info += rng.choice(["\xff", "\xc3", "\xe2\x82"])        # not UTF-8: the server delivered raw bytes
+        qs = rng.choice(["", "a=b&c=%C3%A9", "\xff=%zz", "q=a b", "x=#y"]) if rng.random() < 0.6 else _wsgi_encoding_dance(_text(rng, 0, 4).replace("\ud800", ""))
+        flags = (rng.random() < 0.25, rng.random() < 0.25, rng.random() < 0.2)
+        environ = {"wsgi.url_scheme": scheme, "SERVER_NAME": server[0], "SCRIPT_NAME": script, "PATH_INFO": path_info, "QUERY_STRING": qs}
+        if server[1] is not None:
+            environ["SERVER_PORT"] = str(server[1])
+        if hh is not None:
+            environ["HTTP_HOST"] = hh
+        st, got = guarded(lambda: wsgi_gcu(environ, root_only=flags[0], strip_querystring=flags[1], host_only=flags[2]))
+        o = lambda x: "~" if x is None else cps(x)
+        idx = len(lines)
+        add(f"wcururi {''.join('1' if f else '0' for f in flags)} {cps(scheme)} {o(hh)} {cps(server[0])} "
+            f"{o(str(server[1])) if server[1] is not None else '~'} {cps(script)} {cps(path_info)} {cps(qs)}", None)
+        post.append((idx, "cururi", (st, got, (flags, scheme, hh, server, script, path_info, qs))))
+        chk.case(("wcururi", flags, scheme, hh, server, script, path_info, qs), nontrivial=True)
+        # split_uri (the model of urlsplit on this URL subset) against the interpreter
+        if rng.random() < 0.5:
+            host = rng.choice(["h", "example.com:8080", "[::1]:5000", "10.0.0.80"])
+            uri = (f"{scheme}://{host}{up.quote(script_t.rstrip('/'), safe=gsafe[0])}/{up.quote(path_t.lstrip('/'), safe=gsafe[1])}"
+                   + (("?" + up.quote(qs.encode('latin-1'), safe=gsafe[2])) if qs else ""))
+            sp = up.urlsplit(uri)
+            add(f"spliturl {cps(uri)}", f"ok {cps(sp.scheme)} {cps(sp.netloc)} {cps(sp.path)} {cps(sp.query) if sp.query else '~'}")
+    chk.count("wsgi.get_current_url", 2500 * K)
 
     # ------------------------------------------------ sansio.utils.get_host
     gh_hosts = ["example.com", "10.0.0.80", "web-0", "node8.cluster80", "10.1.2.34", "shard-3.db44", "a8", "host443", "x", "",
@@ -955,7 +1050,7 @@ def main(chk: Check) -> None:
     except px.Unsupported as e:
         chk.broken("translator", "C15/Gen.v", str(e))
     chk.forbidden_scan()
-    if chk.coq_make(["C15/Proofs.vo", "C15/Extract.vo"]):
+    if chk.coq_make(["C15/Proofs.vo", "C15/Fixpoint.vo", "C15/Extract.vo"]):
         chk.audit_props("C15/Props.v")
     else:
         chk.cov["obligations"] += 1
